@@ -29,8 +29,9 @@
 (*     whenever the loop is idle nothing internal is left enabled.             *)
 EXTENDS ResamplingActor, SequencesExt, TLCExt
 
-VARIABLES tid, l, oi
-tvars == <<vars, tid, l, oi>>
+VARIABLES tid, l, oi,
+          crashed     \* a resample() that ended abnormally has been reported for this trace
+tvars == <<vars, tid, l, oi, crashed>>
 
 TraceLog == TLCEval(ndJsonDeserialize(IOEnv.TRACE_FILE))
 Tr == TraceLog[tid]
@@ -63,7 +64,7 @@ SeqSet(s) == {s[i] : i \in 1..Len(s)}
 NoDupSeq(s) == \A i, j \in 1..Len(s) : i # j => s[i] # s[j]
 
 ObsChecks ==
-    LET F == FlatFrom(1)
+    LET F == TLCEval(FlatFrom(1))
         N == Len(F)
         Idx(k, r) == {i \in 1..N : F[i].k = k /\ F[i].r = r}
         First(S) == IF S = {} THEN 0 ELSE CHOOSE i \in S : \A j \in S : i <= j
@@ -148,7 +149,7 @@ ObsChecks ==
               \A r \in SeqSet(Names(i)) : (BreakIdx(r) # 0 /\ BreakIdx(r) < i) =>
                  \* it was in the resampler before the last tick that has been processed
                  LET tb == F[BreakIdx(r)].t  t == F[i].t  lastg == t - (t % P) IN
-                 Check(~(tb < lastg /\ lastg >= FirstTick(Tr.c) /\ F[TakeIdx(r)].t < lastg), "X01.FailedOnlyRemoved",
+                 Check(~(tb < lastg /\ lastg >= FirstTick(Tr.c) /\ TakeIdx(r) # 0 /\ F[TakeIdx(r)].t < lastg), "X01.FailedOnlyRemoved",
                        <<"timeseries", r, "broke at", tb, "still in the resampler at idle instant", t>>)
     /\ \A r \in Reqs : BreakIdx(r) # 0 =>
          LET all == D(r, N + 1) IN
@@ -165,7 +166,7 @@ ObsChecks ==
 (* (b) existential validation against the specification *)
 TInit ==
     /\ tid \in 1..Len(TraceLog)
-    /\ l = 1 /\ oi = {}
+    /\ l = 1 /\ oi = {} /\ crashed = FALSE
     /\ Init /\ created = Tr.c
     /\ ObsChecks
 
@@ -179,14 +180,15 @@ ConsumeEnv ==
        \/ Line.ev = "sinkfail" /\ Line.r \in Reqs /\ SinkFails(Line.r)
        \/ Line.ev = "pass" /\ TimePass /\ now' = Line.t
     /\ KeepH
-    /\ l' = l + 1 /\ oi' = {} /\ UNCHANGED tid /\ Progress
+    /\ l' = l + 1 /\ oi' = {} /\ UNCHANGED <<tid, crashed>> /\ Progress
 
 \* resample() ended with something else than ResamplingError: not an action of the design.  It is reported
 \* (with the cause, when a timeseries had been added to the pending gather) and, like the actor does, the
 \* task is started again so that the rest of the execution is still validated.
 FinishCrash(err) ==
     /\ rt = "gather"
-    /\ Fail("X01.LateRequestServedFromNextTick", <<"resample() ended with", err, "round", round, "timeseries", series>>,
+    /\ Fail(IF Dev_AddDuringGather THEN "X01.LateRequestServedFromNextTick" ELSE "X01.ActorAlive",
+            <<"resample() ended with", err, "round", round, "timeseries", series>>,
             IF Dev_AddDuringGather THEN <<"Dev_AddDuringGather">> ELSE <<>>)
     /\ windowEnd' = IF todo = {} THEN windowEnd + P ELSE windowEnd
     /\ rt' = "sleep" /\ todo' = {} /\ failed' = {} /\ round' = {}
@@ -200,7 +202,7 @@ IterSilent ==
        \/ \E s \in Reqs : Raises(s) /\ HelperRun(s)
        \/ Finish /\ (failed = {} \/ ~Tr.probe)
     /\ KeepH
-    /\ UNCHANGED <<tid, l, oi>>
+    /\ UNCHANGED <<tid, l, oi, crashed>>
 
 \* the observations of one iteration are consumed in any order that keeps the order per kind and request
 Eligible(j) == /\ j \in 1..Len(Line.obs) /\ j \notin oi
@@ -217,6 +219,7 @@ IterObserved ==
               \/ o.k = "rsend" /\ o.err = "ResamplingError" /\ Finish /\ failed # {} /\ failed = SeqSet(o.named)
               \/ o.k = "rsend" /\ o.err # "ResamplingError" /\ FinishCrash(o.err)
          /\ oi' = oi \cup {j}
+         /\ crashed' = (crashed \/ (Line.obs[j].k = "rsend" /\ Line.obs[j].err # "ResamplingError"))
     /\ KeepH
     /\ UNCHANGED <<tid, l>>
 
@@ -228,17 +231,18 @@ IterEnd ==
     /\ l <= NL /\ Line.ev = "iter" /\ oi = 1..Len(Line.obs)
     /\ Matches(Line)
     /\ Line.idle => Quiescent
-    /\ l' = l + 1 /\ oi' = {} /\ UNCHANGED <<vars, tid>> /\ Progress
+    /\ l' = l + 1 /\ oi' = {} /\ UNCHANGED <<vars, tid, crashed>> /\ Progress
 
 ConsumeFinal ==
     /\ l <= NL /\ Line.ev = "final"
     /\ Quiescent
     /\ Line.names # <<-1>> => SeqSet(Line.names) = series
-    /\ l' = l + 1 /\ oi' = {} /\ UNCHANGED <<vars, tid>> /\ Progress
+    /\ l' = l + 1 /\ oi' = {} /\ UNCHANGED <<vars, tid, crashed>> /\ Progress
     /\ (l' > NL) => Say([tid |-> Tr.id, done |-> TRUE])
 
 TNext == ConsumeEnv \/ IterSilent \/ IterObserved \/ IterEnd \/ ConsumeFinal
 
 \* the specification's own clauses are evaluated in every state of every matching behaviour
-TraceInv == ServedExactlyOnce /\ SurvivorsTimelineIntact /\ FailedOnlyRemoved /\ ActorAlive /\ LateRequestServedFromNextTick
+\* (not after an abnormal end of resample() was reported: that is not a state of the design)
+TraceInv == crashed \/ (ServedExactlyOnce /\ SurvivorsTimelineIntact /\ FailedOnlyRemoved /\ ActorAlive /\ LateRequestServedFromNextTick)
 =============================================================================
